@@ -14,7 +14,7 @@ RULE = ("rules: histories of 5..40 requests (family in closed/open Newton-Cotes,
         "weights; n <= 12 quick / 16 thorough) executed in a freshly forked child of a process that never touched the "
         "memo tables; after every request the moment conditions are checked and the answer is compared bit-for-bit "
         "with the answer of a child that made only that request. scalar/function: exact polynomial splines (degree "
-        "0..4, non-uniform, repeated knots) and per-span polynomials integrated with every method and compared with "
+        "0..4, non-uniform, repeated knots) and per-span polynomials (continuous at the knots; jumping at them for the rules without end nodes) integrated with every method and compared with "
         "exact closed forms. lenght: polylines vs. the sum of segment lengths. Non-trivial: a history in which some "
         "size is requested after a larger size of another family; splines with spans of different length")
 ASSUMPTIONS = [
@@ -239,7 +239,9 @@ def check_scalar(case, out):
 def function_cases(draw):
     U, p = draw(gen.knotvectors(0, 3, 4))
     fam = draw(st.sampled_from(["default"] + FAMILIES))
-    gkind = draw(st.sampled_from(["poly", "spline"]))
+    gkind = draw(st.sampled_from(["poly", "spline", "jumps"]))
+    if gkind == "jumps" and fam == "closed":
+        fam = "open"  # a closed rule reads an integrand that jumps at a knot once for both spans: not exact, not asked
     deg = draw(st.integers(0, 4))
     nn = draw(st.integers(deg + 1, deg + 3))
     if fam == "closed":
@@ -251,7 +253,8 @@ def function_cases(draw):
     bk = gen.breaks_of(U)
     V = [bk[0]] * (deg + 1)
     for z in bk[1:-1]:
-        V += [z] * draw(st.integers(1, max(deg, 1)))
+        # "jumps": per-span polynomials that disagree at the knots (multiplicity deg+1), for the rules without end nodes
+        V += [z] * (draw(st.sampled_from([deg + 1, deg + 1, max(deg, 1)])) if gkind == "jumps" else draw(st.integers(1, max(deg, 1))))
     V += [bk[-1]] * (deg + 1)
     Q = draw(gen.ctrlpoints(len(V) - deg - 1, 0))
     return {"U": U, "p": p, "family": fam, "nnodes": nn, "gkind": gkind, "deg": deg, "coefs": coefs,
@@ -271,7 +274,7 @@ def check_function(case, out):
     lens = {b - a for a, b in zip(bk[:-1], bk[1:])}
     out.cls("family=" + fam, "g=" + case["gkind"], "num=" + num)
     out.nontrivial = len(lens) >= 2
-    if case["gkind"] == "poly" or deg == 0:
+    if case["gkind"] == "poly" or (deg == 0 and case["gkind"] != "jumps"):
         coefs = case["coefs"]
 
         def gx(u):
